@@ -129,6 +129,36 @@ VENDOR_FACTORS = {
 }
 
 
+def touched_pattern(prog, h, nprim):
+    """For a basis-correction helper evaluated on abstract shells of `nprim` primitives, one per shell type:
+    {(l, kind): tuple of bool per primitive (rescaled?)}; None if the helper reports 'not applicable'."""
+    from ..symarr import Sym
+
+    shell_cls = prog.cls("iodata.basis.Shell")
+    basis_cls = prog.cls("iodata.basis.MolecularBasis")
+    kinds = [(0, "c"), (1, "c"), (2, "c"), (2, "p"), (3, "c"), (3, "p"), (4, "c"), (4, "p"), (5, "p")]
+    shells = [Rec(shell_cls, icenter=i % 2, angmoms=np.array([l]), kinds=[k], exponents=sym_array(f"a{i}", (nprim,)), coeffs=sym_array(f"k{i}", (nprim, 1))) for i, (l, k) in enumerate(kinds)]
+    before = [s_.fields["coeffs"].copy() for s_ in shells]
+    basis = Rec(basis_cls, shells=shells, conventions={}, primitive_normalization="L2")
+    ev = AccessorEval(prog, shell_cls, limit=8000)
+    ev.module = h.module
+    stubs = {}
+    for q, f_ in prog.funcs.items():
+        if f_.name == "gob_cart_normalization":
+            stubs[q] = lambda args, kw: Sym.atom(f"N({args[0]!r};{','.join(repr(Sym.const(x)) for x in np.asarray(args[1], dtype=object).ravel())})")
+    ev.stubs = stubs
+    out = ev.run_free(h, [basis], {})
+    if out is None:
+        return None
+    oshells = out.fields.get("shells") if isinstance(out, Rec) else None
+    if not isinstance(oshells, list) or len(oshells) != len(shells):
+        return {}
+    pat = {}
+    for (l, k), so, b in zip(kinds, oshells, before):
+        pat[(l, k)] = tuple(not (Sym.const(so.fields["coeffs"][i, 0]) / Sym.const(b[i, 0]) == Sym.const(1)) for i in range(nprim))
+    return pat
+
+
 def check_helper_uniformity(ctx, rid, helpers):
     """Each basis-correction helper, evaluated on abstract shells with two primitives: within a shell either every
     primitive is rescaled or none is (a correction that reaches only some primitives of a contraction is never right),
